@@ -29,6 +29,7 @@ class Contract:
         self.pure = kw.pop('pure', False)
         self.covers = list(kw.pop('covers', []))    # extra reachability checks (must be sat)
         self.tier = kw.pop('tier', 'quick')
+        self.dead_loops = list(kw.pop('dead_loops', []))   # loops that are unreachable under the contract (no reachability cover demanded)
         self.max_paths = kw.pop('max_paths', 24)     # live paths before sibling states are merged
         if kw:
             raise TypeError('unknown contract keys %s for %s' % (list(kw), qual))
